@@ -38,7 +38,7 @@ def _engine(root, opts):
     key = (root, opts.get("solver_timeout_ms", 120000), opts.get("value_cap", 600))
     E = _ENGINES.get(key)
     if E is None:
-        E = Engine([root], solver_timeout_ms=key[1], value_cap=key[2])
+        E = Engine([root, os.path.join(VERIF, "harness")], solver_timeout_ms=key[1], value_cap=key[2])
         E.lazy_pkgs = set(LAZY)
         _ENGINES[key] = E
         E._harness = {}
@@ -75,7 +75,7 @@ def work(task):
         res = explore(E, fn, task.get("args", []), initial_work=task.get("initial_work"),
                       max_paths=task.get("max_paths"), deadline=deadline,
                       collect_models=task.get("collect_models", 2), max_violations=task.get("max_violations", 1),
-                      split_at=task.get("split_at"))
+                      split_at=task.get("split_at"), split_after_s=task.get("split_after_s", 12))
         out.update(res)
         out["funcs"] = sorted([m_, q, ln] for (m_, q), ln in E.funcs_used.items())
         out["sources"] = {k: v for k, v in E.sources.items()}
@@ -103,7 +103,7 @@ def native_batch(root, harness, runs, timeout=900):
     """Run harness functions natively on the real code. -> (results list | None, info, err)"""
     if not runs:
         return [], {}, ""
-    req = {"roots": [root], "lazy": LAZY, "harness": harness, "runs": runs}
+    req = {"roots": [root, os.path.join(VERIF, "harness")], "lazy": LAZY, "harness": harness, "runs": runs}
     with tempfile.NamedTemporaryFile("w", suffix=".json", delete=False) as f:
         json.dump(req, f)
         path = f.name
@@ -263,8 +263,7 @@ def execute(prop, tier, seed):
     results = []
     if tasks:
         ctx = mp.get_context("fork")
-        with ctx.Pool(processes=min(nproc, max(1, len(tasks))) if not any(t.get("split_at") for t in tasks) else nproc,
-                      maxtasksperchild=int(os.environ.get("VERIF_MAXTASKS", "40"))) as pool:
+        with ctx.Pool(processes=nproc, maxtasksperchild=int(os.environ.get("VERIF_MAXTASKS", "40"))) as pool:
             pending = [pool.apply_async(work, (t,)) for t in tasks]
             by_name = {t["name"]: t for t in tasks}
             shard_no = {}
@@ -279,14 +278,13 @@ def execute(prop, tier, seed):
                     if r.get("status") == "split":
                         base = by_name[r["job"]]
                         traces = r["pending"]
-                        per = max(1, len(traces) // (nproc * 2))
-                        for i in range(0, len(traces), per):
+                        # DFS leftovers: the shallowest pending traces head the biggest subtrees -> one task each
+                        for tr in traces:
                             shard_no[r["job"]] = shard_no.get(r["job"], 0) + 1
                             t2 = dict(base)
-                            t2["initial_work"] = traces[i:i + per]
+                            t2["initial_work"] = [tr]
                             t2["shard"] = shard_no[r["job"]]
-                            t2["split_at"] = None
-                            t2["collect_models"] = 1
+                            t2["collect_models"] = 0
                             nxt.append(pool.apply_async(work, (t2,)))
                 pending = nxt
                 if pending:
@@ -299,7 +297,7 @@ def execute(prop, tier, seed):
                                       "wall_s": 0.0, "fp_uses": set(), "assumptions": set(), "completed": 0})
         a["shards"] += 1
         st = r.get("status")
-        if st in ("inconclusive", "unsupported", "crash"):
+        if st in ("inconclusive", "unsupported", "crash") and a["status"] == "done":
             a["status"] = st
             a["notes"].append(r.get("note", ""))
         for k, v in (r.get("stats") or {}).items():
